@@ -1,6 +1,7 @@
 import FsutilModel.Model.Tar
 import FsutilModel.Props.C11
 import FsutilModel.Lemmas.C17
+import FsutilModel.Lemmas.C17Perm
 /-! # C17 — tar export (member abstraction) -/
 namespace Fsm.C17
 open T F
@@ -54,5 +55,20 @@ theorem tar_links_closed (l : List StatE) (hc : C11.Canon l) (hdir : ∀ s ∈ l
   apply members_closed sha _ [] _ (C11.reset_closed l hc)
   intro s hs hd
   exact hdir s (reset_dirs_unchanged l [] s hs hd) hd
+
+/-- The mode field round-trips: for every `os.FileMode` the tar mode bits WriteTar writes (`unixPerm`:
+rwx bits, setuid 04000, setgid 02000, sticky 01000) read back — as an extractor, or the copy option that
+takes unix bits, reads them — to exactly the permission and special bits of the entry; no bit of them
+is lost or invented, whatever the other (type) bits are. -/
+theorem mode_bits_round_trip (m : Nat) : C.goPermOfUnix (unixPerm m) = m &&& C.permMask :=
+  perm_round_trip m
+
+/-- hence two entries whose archived mode fields are equal have equal permission and special bits -/
+theorem mode_field_injective_on_perm_bits (m1 m2 : Nat) (h : unixPerm m1 = unixPerm m2) :
+    m1 &&& C.permMask = m2 &&& C.permMask := by
+  rw [← perm_round_trip m1, ← perm_round_trip m2, h]
+
+/-- non-vacuity: a setuid+sticky 0751 directory mode -/
+example : unixPerm (modeDir ||| modeSetuid ||| modeSticky ||| 489) = 2048 + 512 + 489 := by decide
 
 end Fsm.C17
